@@ -8,6 +8,7 @@ import (
 	"sort"
 	"strings"
 	"testing"
+	"time"
 
 	"pgregory.net/rapid"
 	"verif/harness/core"
@@ -23,11 +24,16 @@ type C18Case struct {
 	Ns      []int   `json:"ns"`      // namespace id of each package (equal ids = same namespace)
 	Style   [][]int `json:"style"`   // spelling of each import path: 0 relative, 1 absolute, 2 ./x/../x, 3 trailing slash
 	Gen     string  `json:"gen"`
+	// Rogue: pairs (i, j): package i refers to a type of package j's namespace without importing j
+	Rogue [][2]int `json:"rogue,omitempty"`
+	// Usable: also generate C++ and Python for the root and check that the C++ types compile and the
+	// Python package imports (the loaded packages are usable from their importers, in a workable order)
+	Usable bool `json:"usable,omitempty"`
 }
 
 const importLimit = 10 // packaging.MaxImportRecursionDepth; re-stated here, checked against the source by TestC18Limit
 
-const c18Rule = "import graphs: exhaustive (all adjacency matrices on up to 3 packages in quick, 4 in thorough, self-loops included, each with the declared order and a permuted order of every import list) and random (5-14 packages with chains of 8-12 edges around the limit, shortcuts, diamonds, cycles away from the root, two directories declaring one namespace, relative/absolute/redundant path spellings). oracle = reference loader over the abstract graph: reachable cycle or reachable namespace clash or every path to some package has more than 10 edges => error; all paths at most 9 edges and no cycle/clash => exit 0, model.json lists exactly the reachable namespaces once each with exactly their own definitions and cross-namespace references resolve; verdict and namespace->definitions map invariant under permutation of import lists. non-trivial = graph has a diamond, a cycle not through the root, a clash or a chain of at least 9 edges; distinct = canonical text of the graph"
+const c18Rule = "import graphs: exhaustive (all adjacency matrices on up to 3 packages in quick, 4 in thorough, self-loops included, each with the declared order and a permuted order of every import list) and random (5-14 packages with chains of 8-12 edges around the limit, shortcuts, diamonds, cycles away from the root, two directories declaring one namespace, relative/absolute/redundant path spellings). oracle = reference loader over the abstract graph: reachable cycle or reachable namespace clash or every path to some package has more than 10 edges => error; all paths at most 9 edges and no cycle/clash => exit 0, model.json lists exactly the reachable namespaces once each with exactly their own definitions and cross-namespace references resolve; a package that refers to a namespace neither it nor its imports import must be rejected (all three-package graphs with such a reference, and a fifth of the random ones); for graphs with a shared import (exhaustive part) and one random graph in forty-eight C++ and Python are generated as well and the C++ types must compile and the Python package import (the loaded packages are usable from their importers); verdict and namespace->definitions map invariant under permutation of import lists. non-trivial = graph has a diamond, a cycle not through the root, a clash or a chain of at least 9 edges; distinct = canonical text of the graph"
 
 func (c C18Case) layout(root string) model.Layout {
 	l := model.Layout{}
@@ -58,11 +64,14 @@ func (c C18Case) layout(root string) model.Layout {
 		}
 		if i == 0 {
 			m.WriteString("json:\n  outputDir: ../out\n")
+			if c.Usable {
+				m.WriteString("cpp:\n  sourcesOutputDir: ../out/cpp\n  overrideArrayHeader: verif_ndarray.h\n  generateHDF5: false\n  generateNDJson: false\n  generateCMakeLists: false\npython:\n  outputDir: ../out/py\n")
+			}
 		}
 		var y strings.Builder
 		// every package also offers generic types (one nested in the other) and uses those of its imports
 		fmt.Fprintf(&y, "G%d<T>: !record\n  fields:\n    v: T\n    w: W%d<T>\n", i, i)
-		fmt.Fprintf(&y, "R%d: !record\n  fields:\n    self: int\n", i)
+		fmt.Fprintf(&y, "R%d: !record\n  fields:\n    own: int\n", i)
 		seen := map[int]bool{}
 		for _, j := range c.Imports[i] {
 			if seen[j] || c.Ns[j] == c.Ns[i] {
@@ -71,6 +80,11 @@ func (c C18Case) layout(root string) model.Layout {
 			seen[j] = true
 			fmt.Fprintf(&y, "    from%d: N%d.R%d\n", j, c.Ns[j], j)
 			fmt.Fprintf(&y, "    gen%d: N%d.G%d<float>\n", j, c.Ns[j], j)
+		}
+		for _, rg := range c.Rogue {
+			if rg[0] == i {
+				fmt.Fprintf(&y, "    rogue%d: N%d.R%d\n", rg[1], c.Ns[rg[1]], rg[1])
+			}
 		}
 		fmt.Fprintf(&y, "W%d<T>: !record\n  fields:\n    item: T\n", i)
 		if i == 0 {
@@ -82,6 +96,9 @@ func (c C18Case) layout(root string) model.Layout {
 }
 
 type c18Ref struct {
+	// RogueTransitive: some package refers to a namespace it imports only indirectly: the verdict is left
+	// open, only its independence of the import order is asserted
+	RogueTransitive bool
 	MustErr, MustOK bool
 	Why             string
 	Reachable       []int
@@ -135,6 +152,36 @@ func (c C18Case) reference() c18Ref {
 		}
 		byNs[c.Ns[v]] = v
 	}
+	// a reference to a namespace that the referring package does not import (directly or through its imports)
+	for _, rg := range c.Rogue {
+		i, j := rg[0], rg[1]
+		if !reach[i] || c.Ns[i] == c.Ns[j] {
+			continue
+		}
+		sub := map[int]bool{i: true}
+		st := []int{i}
+		for len(st) > 0 {
+			v := st[len(st)-1]
+			st = st[:len(st)-1]
+			for _, w := range c.Imports[v] {
+				if !sub[w] {
+					sub[w] = true
+					st = append(st, w)
+				}
+			}
+		}
+		imported := false
+		for v := range sub {
+			if v != i && c.Ns[v] == c.Ns[j] {
+				imported = true
+			}
+		}
+		if !imported {
+			r.MustErr, r.Why = true, fmt.Sprintf("p%d refers to N%d without importing it", i, c.Ns[j])
+			return r
+		}
+		r.RogueTransitive = true
+	}
 	// acyclic: shortest and longest path (in edges) from the root to every reachable node
 	short := map[int]int{0: 0}
 	long := map[int]int{0: 0}
@@ -161,6 +208,8 @@ func (c C18Case) reference() c18Ref {
 	switch {
 	case maxShort > importLimit:
 		r.MustErr, r.Why = true, fmt.Sprintf("every path to some package has more than %d edges", importLimit)
+	case r.RogueTransitive:
+		r.Why = "a package refers to a namespace that only one of its imports imports: only order-independence is asserted"
 	case maxLong < importLimit:
 		r.MustOK, r.Why = true, "acyclic, no clash, all chains within the limit"
 	default:
@@ -209,10 +258,11 @@ func (c C18Case) topo(nodes []int) []int {
 }
 
 type c18Obs struct {
-	Exit int
-	Out  string
-	Ns   map[string][]string // namespace -> sorted type names (from model.json)
-	Dup  string
+	Unusable string // non-empty: generated C++ types do not compile / generated Python does not import
+	Exit     int
+	Out      string
+	Ns       map[string][]string // namespace -> sorted type names (from model.json)
+	Dup      string
 }
 
 func runC18(c C18Case) c18Obs {
@@ -223,6 +273,17 @@ func runC18(c C18Case) c18Obs {
 	o := c18Obs{Exit: r.Exit, Out: sut.StripANSI(r.Combined()), Ns: map[string][]string{}}
 	if r.TimedOut {
 		o.Exit = -9
+	}
+	if r.Exit == 0 && c.Usable {
+		core.Rec("C18").Class("usability-checked")
+		cppDir := filepath.Join(root, "out", "cpp")
+		os.WriteFile(filepath.Join(cppDir, "verif_ndarray.h"), mustRead(filepath.Join(sut.VerifDir(), "shim", "verif_ndarray.h")), 0o644)
+		g := sut.Run(cppDir, nil, 300*time.Second, nil, "g++", "-std=c++17", "-fsyntax-only", "-w", "-I"+filepath.Join(sut.VerifDir(), "shim"), "-I"+cppDir, "types.cc")
+		if g.Exit != 0 {
+			o.Unusable = "generated C++ types do not compile:\n" + firstErrors(g.Combined(), 5)
+		} else if ok, e := pyTreeImports(sut.ReadTree(filepath.Join(root, "out"))); !ok {
+			o.Unusable = "generated Python package does not import: " + e
+		}
 	}
 	if r.Exit == 0 {
 		data, err := os.ReadFile(filepath.Join(root, "out", "model.json"))
@@ -301,6 +362,9 @@ func checkC18(c C18Case) *Fail {
 	if obs.Exit != 0 && len(diagnostics(obs.Out)) == 0 {
 		return failf("c18", "%s: exit %d without an error naming a file:\n%s", desc, obs.Exit, core.Trunc(obs.Out, 600))
 	}
+	if obs.Exit == 0 && obs.Unusable != "" {
+		return failf("c18", "%s: accepted, but the types of the imported packages are not usable from their importers: %s", desc, core.Trunc(obs.Unusable, 1200))
+	}
 	if obs.Exit == 0 {
 		if obs.Dup != "" {
 			return failf("c18", "%s: namespace %s loaded more than once", desc, obs.Dup)
@@ -334,7 +398,11 @@ func checkC18(c C18Case) *Fail {
 		if fmt.Sprint(d.Imports) == fmt.Sprint(c.Imports) {
 			continue
 		}
+		d.Usable = c.Usable && name == "reversed"
 		o2 := runC18(d)
+		if o2.Exit == 0 && o2.Unusable != "" {
+			return failf("c18", "%s: with %s import lists %v the package is accepted, but the types of the imported packages are not usable from their importers: %s", desc, name, d.Imports, core.Trunc(o2.Unusable, 1200))
+		}
 		if (o2.Exit == 0) != (obs.Exit == 0) {
 			f := failf("c18", "%s: exit %d, but with %s import lists %v exit %d (%s)\n--- original\n%s\n--- %s\n%s", desc, obs.Exit, name, d.Imports, o2.Exit, ref.Why, core.Trunc(obs.Out, 500), name, core.Trunc(o2.Out, 500))
 			f.KnownID = c18Known(ref)
@@ -368,6 +436,54 @@ func (c C18Case) nontrivial() bool {
 		return true
 	}
 	return len(ref.Reachable) >= 10
+}
+
+// sharedImport: some reachable package is imported by two different reachable packages
+func (c C18Case) sharedImport() bool {
+	ref := c.reference()
+	indeg := map[int]int{}
+	for _, v := range ref.Reachable {
+		seen := map[int]bool{}
+		for _, w := range c.Imports[v] {
+			if !seen[w] && w != v {
+				seen[w] = true
+				indeg[w]++
+			}
+		}
+	}
+	shared := false
+	for _, d := range indeg {
+		if d >= 2 {
+			shared = true
+		}
+	}
+	if !shared || ref.MustErr {
+		return false
+	}
+	// ... and is reached both by a short and by a longer path (acyclic here): the order in which the loaded
+	// packages are handed to the generators has to respect the longer one
+	short, long := map[int]int{0: 0}, map[int]int{0: 0}
+	for _, v := range c.topo(ref.Reachable) {
+		for _, w := range c.Imports[v] {
+			if _, ok := short[w]; !ok || short[v]+1 < short[w] {
+				short[w] = short[v] + 1
+			}
+			if long[v]+1 > long[w] {
+				long[w] = long[v] + 1
+			}
+		}
+	}
+	for _, v := range ref.Reachable {
+		if long[v] > short[v] {
+			return true
+		}
+	}
+	return false
+}
+
+func mustRead(p string) []byte {
+	d, _ := os.ReadFile(p)
+	return d
 }
 
 func enumGraph(n int, code uint64) C18Case {
@@ -420,6 +536,14 @@ func genC18(t *rapid.T) C18Case {
 		}
 		add(a, b)
 	}
+	if rapid.IntRange(0, 4).Draw(t, "rogue") == 0 {
+		a := rapid.IntRange(0, n-1).Draw(t, "rogueFrom")
+		b := rapid.IntRange(0, n-1).Draw(t, "rogueTo")
+		if a != b {
+			c.Rogue = append(c.Rogue, [2]int{a, b})
+		}
+	}
+	c.Usable = rapid.IntRange(0, 47).Draw(t, "usable") == 0
 	if rapid.IntRange(0, 5).Draw(t, "clash") == 0 {
 		a := rapid.IntRange(1, n-1).Draw(t, "clashA")
 		b := rapid.IntRange(0, n-1).Draw(t, "clashB")
@@ -465,16 +589,33 @@ func TestC18(t *testing.T) {
 				continue
 			}
 			c := enumGraph(n, code)
+			c.Usable = n >= 3 && c.sharedImport()
 			rec.Eval()
 			if c.nontrivial() {
 				rec.Nontrivial(core.Hash(c.Imports, c.Ns))
 			}
-			if f := checkC18(c); f != nil {
-				if f.KnownID != "" && core.Open(f.KnownID) {
-					rec.Known(f.KnownID, knownWhat(f.KnownID))
-					continue
+			variants := []C18Case{c}
+			if n == 3 {
+				// the same graph with one package referring to a sibling's namespace it may or may not import
+				for _, rg := range [][2]int{{1, 2}, {2, 1}, {0, 2}} {
+					d := c
+					d.Rogue = [][2]int{rg}
+					d.Usable = false
+					variants = append(variants, d)
 				}
-				t.Fatalf("%s", rec.Violate(f.Check, c, "%s", f.Msg))
+			}
+			for _, c := range variants {
+				if len(c.Rogue) > 0 {
+					rec.Eval()
+					rec.Class("exhaustive:rogue-reference")
+				}
+				if f := checkC18(c); f != nil {
+					if f.KnownID != "" && core.Open(f.KnownID) {
+						rec.Known(f.KnownID, knownWhat(f.KnownID))
+						continue
+					}
+					t.Fatalf("%s", rec.Violate(f.Check, c, "%s", f.Msg))
+				}
 			}
 		}
 	}
